@@ -505,14 +505,14 @@ def parse_refs(text, own_file):
 
 
 def run_affects(task):
-    blocks, order = task        # blocks: tuple of (file index, name or None, affects text or None)
+    blocks, order = task[:2]    # blocks: tuple of (file index, name or None, affects text or None)
     from .vharness import mk_block, mk_bwc, mk_context, run_validator, decode_violations
     prog = driver.load_program()
     stats = PathStats()
     out = dict(violations=[], samples=[], obligations=0, cover={}, panic_paths=0)
     holder = {}
     roles = set()
-    files = ['f0.py', 'f1.py']
+    files = list(task[2]) if len(task) > 2 else ['f0.py', 'f1.py']      # the second file may sit in a dot-directory
 
     def run_path(I):
         I.map_order = lambda n: [x for x in order if x < n] if len(order) >= n else list(range(n))
@@ -539,7 +539,7 @@ def run_affects(task):
         if I.check(cond):
             roles.add(role)
             m = I.solver.model()
-            out['violations'].append(dict(role=role, summary=summary, blocks=[list(b) for b in blocks], order=list(order),
+            out['violations'].append(dict(role=role, summary=summary, blocks=[list(b) for b in blocks], order=list(order), names=list(files),
                                           modified=[mval(m, c) for c in holder['cms']], values=None, shape=[]))
 
     for I, pk, val in explore(prog, models.M, run_path, stats=stats, max_paths=20000):
@@ -589,6 +589,8 @@ def run_affects(task):
         out['cover']['affects'] = out['cover'].get('affects', 0) + 1
         if len(set(n for _f, n, _a in blocks if n)) < len([n for _f, n, _a in blocks if n]):
             out['cover']['affects: duplicate names'] = 1
+        if any(f.startswith('.') for f in files):
+            out['cover']['affects: reference into a dot-directory'] = 1
     out.update(Agg(PROP, 'x').stats_from(stats))
     return out
 
@@ -613,6 +615,12 @@ def affects_tasks(rnd, nblocks, count):
     for f in fixed:
         for o in ((0, 1, 2, 3), (3, 2, 1, 0)):
             tasks.append((f, o))
+    # references into a dot-directory / to a dot-file (`.github/...`): the reference is the path as written
+    dot = ('f0.py', '.d/f1.py')
+    for f in (((0, 'a', '.d/f1.py:y'), (1, 'y', None)),
+              ((1, 'y', 'f0.py:a'), (0, 'a', ' .d/f1.py : y ')),
+              ((0, None, '.d/f1.py:y, :x'), (0, 'x', None), (1, 'y', None))):
+        tasks.append((f, (0, 1, 2, 3), dot))
     return tasks
 
 
@@ -620,7 +628,7 @@ def confirm_affects(binary, v, idx):
     """Replay: two .py files; blocks with the witness's names/affects; modified blocks get their content line edited in the diff."""
     v['confirmed'] = False
     files = {0: [], 1: []}
-    names = ['f0.py', 'f1.py']
+    names = list(v.get('names') or ['f0.py', 'f1.py'])
     line_of = {}
     for bi, (fi, name, aff) in enumerate(v['blocks']):
         attrs = ''
@@ -652,6 +660,7 @@ def confirm_affects(binary, v, idx):
         git_init(d)
         for fi in (0, 1):
             if files[fi]:
+                os.makedirs(os.path.dirname(os.path.join(d, names[fi])) or d, exist_ok=True)
                 open(os.path.join(d, names[fi]), 'w').write('\n'.join(files[fi]) + '\n')
         # globs put every block of both files into the validation context (as the harness does)
         r = run_blockwatch(binary, d, [n for fi, n in enumerate(names) if files[fi]], stdin=diff.encode())
@@ -674,10 +683,11 @@ def confirm_affects(binary, v, idx):
         git_init(rd)
         for fi in (0, 1):
             if files[fi]:
+                os.makedirs(os.path.dirname(os.path.join(rd, names[fi])) or rd, exist_ok=True)
                 open(os.path.join(rd, names[fi]), 'w').write('\n'.join(files[fi]) + '\n')
         open(os.path.join(rd, 'input.diff'), 'w').write(diff)
         open(os.path.join(rd, 'violation.json'), 'w').write(json.dumps(v, indent=1, default=str))
-        open(os.path.join(rd, 'replay.sh'), 'w').write('#!/bin/sh\n# expected affects violations %s\ncd "$(dirname "$0")" && "${BLOCKWATCH:-blockwatch}" f0.py f1.py < input.diff\n' % sorted(want))
+        open(os.path.join(rd, 'replay.sh'), 'w').write('#!/bin/sh\n# expected affects violations %s\ncd "$(dirname "$0")" && "${BLOCKWATCH:-blockwatch}" %s < input.diff\n' % (sorted(want), ' '.join(names)))
         v['replay'] = rd
     return v
 
@@ -860,7 +870,7 @@ def main(tier):
         ],
         stubs=['diff_parser::line_diff (contract stub)', 'unidiff::PatchedFile::hunks / Hunk::lines / Line::is_* (accessor models)'],
         must_cover=['event:add', 'event:mod', 'event:del', 'pure deletion after an unbalanced earlier hunk',
-                    'three or more changes with a modified line', 'affects', 'affects: duplicate names', 'line_diff'],
+                    'three or more changes with a modified line', 'affects', 'affects: duplicate names', 'affects: reference into a dot-directory', 'line_diff'],
         explanation='per diff shape, all feasible MIR paths of line_changes + content_intersects_with_any; post-conditions PC∧inside(e)∧¬modified and PC∧all-away∧modified asked of Z3 per path')
 
 
